@@ -206,6 +206,12 @@ pub struct Session {
     cur_backend: u8,
 }
 
+/// A slot of an uninit array in which at least one of the four pointer/length words was never
+/// written (still the poison pattern).
+fn has_poison_word(slot: &[u8]) -> bool {
+    slot.chunks_exact(8).any(|w| w.iter().all(|&x| x == POISON))
+}
+
 fn raw_bytes(p: *const u8, n: usize) -> Vec<u8> {
     if cfg!(miri) {
         // under Miri the array is never inspected behind the value's back (that would itself
@@ -405,7 +411,9 @@ impl Session {
             let (b, a) = (&snapshot[i * HSZ..(i + 1) * HSZ], &after[i * HSZ..(i + 1) * HSZ]);
             if a == b {
                 o.slots.push(Slot::Untouched);
-            } else if a.iter().all(|&x| x == POISON) {
+            } else if has_poison_word(a) {
+                // wholly or partly unwritten (a pointer or length word still holds the poison
+                // pattern): never dereferenced by the harness
                 o.slots.push(Slot::Foreign);
             } else {
                 // SAFETY: the slot was overwritten by the parser with a Header value (it is not
@@ -427,7 +435,7 @@ impl Session {
             let off = o.hdr_off.unwrap();
             let mut ok = true;
             for i in off..off + hl {
-                if !cfg!(miri) && after[i * HSZ..(i + 1) * HSZ].iter().all(|&x| x == POISON) && uninit {
+                if !cfg!(miri) && uninit && has_poison_word(&after[i * HSZ..(i + 1) * HSZ]) {
                     o.poison_exposed = true;
                     ok = false;
                 }
